@@ -443,7 +443,12 @@ func (s *JavaFullListener) EnterCreator(ctx *parser.CreatorContext) {
 
 	for _, identifier := range allIdentifiers {
 		createdName := identifier.GetText()
-		localVars[variableName] = createdName
+		// "x = new T()": remember T for a name that has no declared type of its own (e.g. an inherited
+		// field); a declared field, parameter or local keeps its declared type, and texts that are not a
+		// plain name (the first argument of a call, "this.x", ...) are not variables at all
+		if isPlainName(variableName) && !isDeclaredVariable(variableName) {
+			localVars[variableName] = createdName
+		}
 
 		buildCreatorCall(createdName, ctx)
 
@@ -476,6 +481,23 @@ func (s *JavaFullListener) EnterCreator(ctx *parser.CreatorContext) {
 
 		currentCreatorNode = *creatorNode
 	}
+}
+
+func isPlainName(text string) bool {
+	if text == "" {
+		return false
+	}
+	for i, c := range text {
+		isLetter := c == '_' || c == '$' || (c >= 'a' && c <= 'z') || (c >= 'A' && c <= 'Z') || c > 127
+		if !isLetter && (i == 0 || c < '0' || c > '9') {
+			return false
+		}
+	}
+	return true
+}
+
+func isDeclaredVariable(name string) bool {
+	return mapFields[name] != "" || formalParameters[name] != "" || localVars[name] != ""
 }
 
 func (s *JavaFullListener) ExitCreator(ctx *parser.CreatorContext) {
